@@ -87,6 +87,7 @@ type obs struct {
 	hdrHex   string // deliver: first min(12,len) bytes
 	sealedN  string // deliver: "" = garbage, else nonce hex of the genuine frame whose body this is
 	sealedP  int
+	sealedL  int
 	flen     int
 	outcome  string // "enc" | "accept" | "short" | "old" | "dir" | "exhausted" | "auth" | "other:<msg>"
 	accPid   int
@@ -245,6 +246,7 @@ func run(c *vh.Ctx, s *Schedule, monitor bool) runResult {
 				if idx, ok := bodyOf[string(f[12:])]; ok {
 					o.sealedN = hex.EncodeToString(em[idx].frame[:12])
 					o.sealedP = idx
+					o.sealedL = len(em[idx].plain)
 				}
 			} else {
 				o.hdrHex = hex.EncodeToString(f)
@@ -335,7 +337,7 @@ func coqCase(s *Schedule, rr runResult) string {
 		} else {
 			body := "XGarbage"
 			if o.sealedN != "" {
-				body = fmt.Sprintf("(XSealed \"%s\" %d)", o.sealedN, o.sealedP)
+				body = fmt.Sprintf("(XSealed \"%s\" %d %d)", o.sealedN, o.sealedP, o.sealedL)
 			}
 			evs = append(evs, fmt.Sprintf("XDeliver %s \"%s\" %s %d", coqSide(o.side), o.hdrHex, body, o.flen))
 		}
@@ -515,9 +517,11 @@ func main() {
 			do(s)
 			c.Count("fixed-witness")
 		}
+		// vh.NewRand gives overlapping streams for neighbouring seeds; re-key
+		root := vh.NewRand(int64(uint64(c.Seed)*0xD1342543DE82EF95 + 0x632BE59BD9B4E019))
 		n := c.N(400, 20000)
 		for i := 0; i < n; i++ {
-			r := c.Rand.Fork()
+			r := root.Fork()
 			do(genSchedule(r, r.Pick(4, 8, 16, 30, 45)))
 		}
 	}
